@@ -11,6 +11,11 @@ CATCH = {  # which checks are expected to report each change (first = primary)
     'C13_m1': ['C13'], 'C13_m2': ['C13'], 'C14_m1': ['C14'], 'C14_m2': ['C14'], 'C15_m1': ['C15'], 'C15_m2': ['C15'],
     'C16_m1': ['C16'], 'C16_m2': ['C16'], 'C17_m1': ['C17'], 'C17_m2': ['C17'], 'C18_m1': ['C18'], 'C18_m2': ['C18'],
     'C19_m1': ['C19'], 'C19_m2': ['C19'], 'C20_m1': ['C20'], 'C20_m2': ['C20'],
+    # second round (changes asked to differ in kind: type-dependent, aliasing, boundary values, initialisation order)
+    'C01_m3': ['C02'], 'C01_m4': ['C01'], 'C02_m3': ['C02'], 'C02_m4': ['C01'], 'C05_m3': ['C05'], 'C05_m4': ['C05'],
+    'C09_m3': ['C09'], 'C09_m4': ['C04'], 'C10_m3': ['C10'], 'C10_m4': ['C10'], 'C12_m3': ['C12'], 'C12_m4': ['C12'],
+    'C14_m3': ['C14'], 'C14_m4': ['C14'], 'C16_m3': ['C16'], 'C16_m4': ['C16'], 'C19_m3': ['C19'], 'C19_m4': ['C19'],
+    'C20_m3': ['C20'], 'C20_m4': ['C20'],
 }
 
 
@@ -40,6 +45,15 @@ def main():
                 print(rows[-1], flush=True)
         finally:
             sh('git -C /repo checkout -- .')
+    prev = {}
+    if sys.argv[1:] and os.path.exists('/verif/seeded/RESULTS.md'):
+        for l in open('/verif/seeded/RESULTS.md'):
+            m = re.match(r'^\| (C\d\d_m\d) \| (\S+) \| (.*) \| (\d+) \|$', l)
+            if m:
+                prev[(m.group(1), m.group(2))] = (m.group(1), m.group(2), m.group(3), m.group(4))
+    for r in rows:
+        prev[(r[0], r[1])] = r
+    rows = [prev[k] for k in sorted(prev)]
     with open('/verif/seeded/RESULTS.md', 'w') as f:
         f.write('# Checks against the seeded changes (quick tier)\n\nRegenerate with `python3 tools/run_seeded.py` (applies each patch to /repo, runs the check, restores /repo).\n\n| change | check | result | wall s |\n|---|---|---|---|\n')
         for r in rows:
